@@ -101,7 +101,8 @@ PNAMES = ["a", "b", "c", "num"]
 class World:
     """Real objects + recording."""
 
-    def __init__(self, specs, with_event=False):
+    def __init__(self, specs, with_event=False, pnames=None):
+        self.pnames = list(pnames or PNAMES)
         ns = {"a": param.Parameter(default=0), "b": param.Parameter(default=0), "c": param.Parameter(default=0),
               "num": param.Number(default=1, bounds=(0, 10), doc="d0")}
         if with_event:
@@ -160,7 +161,7 @@ class World:
         else:
             cb = self.cbs.setdefault(wid, self.make_cb(wid))
         self.handles[wid] = reg(
-            cb, [PNAMES[n] for n in spec["names"]], what=spec["what"],
+            cb, [self.pnames[n] for n in spec["names"]], what=spec["what"],
             onlychanged=spec["onlychanged"], queued=spec["queued"], precedence=spec["precedence"])
 
     def unregister(self, wid):
